@@ -186,3 +186,11 @@ Theorem C03_mapor_kmn_merge_is_union (H : list (oprec (mop oop))) :
   moreach_kmn H s1 K1 -> moreach_kmn H s2 K2 -> moreach_kmn H s K -> K = K1 ∪ K2 -> mmerge orswot_valops s1 s2 = s.
 Proof. exact (mapor_merge_is_union_kmn H). Qed.
 Print Assumptions C03_mapor_kmn_merge_is_union.
+
+(** depth 3 without key removes: merge = state of the union of knowledge (proofs/MapNKFunctorInst.v) *)
+From Crdt Require Import model.Orswot model.Map spec.System spec.OrswotSpec spec.OrswotSystem spec.MapSpec spec.MapSystem spec.MapOrswotSpec spec.MapMapOrswotSpec spec.MapMapOrswotNKSpec proofs.MapMapOrswotNK proofs.MapNKFunctor proofs.MapNKFunctorInst.
+Theorem C03_map3_nk_merge_spec (H : list (oprec (mop (mop (mop oop))))) :
+  m3hist_ok_nk H -> forall (s1 : cmap (cmap (cmap orswot))) (K1 : gset nat) (s2 : cmap (cmap (cmap orswot))) (K2 : gset nat),
+  m3reach_nk H s1 K1 -> m3reach_nk H s2 K2 -> mmerge (map_valops (map_valops orswot_valops)) s1 s2 = map3_spec_nk H (K1 ∪ K2).
+Proof. exact (map3_merge_spec_nk H). Qed.
+Print Assumptions C03_map3_nk_merge_spec.
